@@ -308,5 +308,19 @@ def _():
     finally:
         shutil.rmtree(d)
 
+@case('F19 metadata field named "info" survives save/reload')
+def _():
+    from phylib.io.model import load_model
+    d = make_dataset(tmp())
+    try:
+        m = load_model(d / 'params.py')
+        m.save_metadata('info', {0: 5, 1: 7}); m.save_metadata('quality', {0: 1}); m.close()
+        m2 = load_model(d / 'params.py')
+        assert m2.metadata.get('quality') == {0: 1}
+        assert m2.metadata.get('info') == {0: 5, 1: 7}, m2.metadata.get('info')
+        m2.close()
+    finally:
+        shutil.rmtree(d)
+
 for k, v in R.items():
     print('%-75s %s' % (k, v))
